@@ -921,10 +921,12 @@ func (c *clientTask) RunEvent(time.Time) {
 			k.Lock()
 			x.dialed[tok(c.ci, ei)] = &dialRec{plan: e, home: plan.Home}
 			k.Unlock()
+			var ctxDL time.Time // the context's deadline bounds dial and exchange together
 			if api == 4 {
 				ctx := common.NewCtx(k, time.Duration(e.TimeoutMs)*time.Millisecond/2, "cli")
-				if dl, ok := ctx.Deadline(); ok {
-					deadline = dl
+				ctxDL, _ = ctx.Deadline()
+				if ctxDL.Before(deadline) {
+					deadline = ctxDL
 				}
 				r, _, err = cl.ExchangeContext(ctx, m, addr)
 			} else {
@@ -936,8 +938,9 @@ func (c *clientTask) RunEvent(time.Time) {
 			// the deadline of the exchange proper is set when the connection is there (the timeout
 			// bounds the dial and, again, the write and read that follow); a context bounds both
 			if !d.doneT.IsZero() {
-				if dl := d.doneT.Add(eff); api == 3 || dl.Before(deadline) {
-					deadline = dl
+				deadline = d.doneT.Add(eff)
+				if api == 4 && ctxDL.Before(deadline) {
+					deadline = ctxDL
 				}
 			} else if api == 3 {
 				// no connection: only the dialer's own timeout bounds the attempt
@@ -987,10 +990,14 @@ func (c *clientTask) RunEvent(time.Time) {
 		switch api {
 		case 1:
 			ctx := common.NewCtx(k, time.Duration(e.TimeoutMs)*time.Millisecond/2, "cli")
-			if dl, ok := ctx.Deadline(); ok {
+			if dl, ok := ctx.Deadline(); ok && dl.Before(deadline) {
 				deadline = dl
 			}
 			r, _, err = cl.ExchangeWithConnContext(ctx, m, co)
+			// the caller's "defer cancel()": the context ends when the exchange has returned - which must not
+			// reach into the next exchange on this connection
+			ctx.Cancel()
+			k.Yield("cli.cancelled", 0)
 		case 2:
 			co.UDPSize = uint16(e.CliUDP)
 			co.SetDeadline(deadline)
@@ -1013,6 +1020,11 @@ func (c *clientTask) RunEvent(time.Time) {
 			if over := time.Since(deadline); over > time.Millisecond {
 				k.Lock()
 				x.res.Fail("X2", "deadline-overrun", "exchange %s over %s returned %v after its deadline (timeout %d ms, context %v): skipped replies must not extend the wait", ex.token, plan.Net, over, e.TimeoutMs, e.API == 1)
+				k.Unlock()
+			}
+			if early := time.Until(deadline); err != nil && isTimeout(err) && early > time.Millisecond {
+				k.Lock()
+				x.res.Fail("X2", "timeout-before-deadline", "exchange %s over %s ended with %q %v before its deadline (timeout %d ms, context %v): something other than this exchange's own time limit cut it short", ex.token, plan.Net, err, early, e.TimeoutMs, e.API == 1)
 				k.Unlock()
 			}
 		}
